@@ -7,7 +7,7 @@
    emitted .go text is tied to the model by T1 (tools/t1_go.py) on every run.  Go itself is
    never executed. *)
 From Coq Require Import ZArith List Bool.
-From BP Require Import Bits Schema Spec PyRt Eqb PyEncTop GoRt GoEqb GoHelpers GoTables GoEncProofs.
+From BP Require Import Bits Schema Spec PyRt Eqb PyEncTop GoRt GoEqb GoHelpers GoTables GoEncProofs GoDecLeaf.
 From BPGen Require GenPy GenGo.
 Import ListNotations.
 Open Scope Z_scope.
@@ -153,6 +153,16 @@ Theorem C19_go_sign_extend : forall w n u,
   Z.shiftr (GenGo.wrap_s w (Z.shiftl u (w - n))) (w - n) = sext n u.
 Proof. exact go_sign_extend. Qed.
 Print Assumptions C19_go_sign_extend.
+
+(* single-leaf decode: the operand of the typed `m.F |= (T(b) << lshift)` is exactly what the
+   Python accessor ORs in (bp.intW(int(b) << lshift) resp. int(b) << lshift): converting the
+   byte to T before the shift loses nothing, for every Go integer type, byte and chunk offset *)
+Theorem C19_go_chunk_eq_py : forall w b l,
+  In w [8; 16; 32; 64] -> 0 <= b < 256 -> 0 <= l -> l + 8 <= w ->
+  conv_to (GInt w) (Z.shiftl (GenGo.wrap_s w b) l) = Ok (cast_w w (Z.shiftl b l)) /\
+  conv_to (GUint w) (Z.shiftl (GenGo.wrap_u w b) l) = Ok (Z.shiftl b l).
+Proof. exact go_chunk_eq_py. Qed.
+Print Assumptions C19_go_chunk_eq_py.
 
 (* non-vacuity: a permuted, extensible, nested example meets every hypothesis *)
 Definition ex_t : ty :=
